@@ -33,6 +33,19 @@ class JTF:
         return build(self.payload)
 
 
+class NestedConv:
+    """Tagifiable whose tagify() itself converts another component (as a widget wrapping a component would)."""
+
+    def __init__(self, payload):
+        self.payload = payload
+
+    def tagify(self):
+        inner = jsx_mod.jsx_tag_create("InnerWidget")("w", ht.HTMLDependency("inner-only", "1.0"))
+        str(inner)
+        inner.tagify()
+        return build(self.payload)
+
+
 class Counter:
     def __init__(self):
         self.n = 0
@@ -106,7 +119,10 @@ def rand_child(rng, cnt, depth, allow_tf=True):
         payload = rand_dep(rng, cnt)
     else:
         payload = rand_comp(rng, cnt, max(depth - 1, 0), allow_tf=False)
-    return {"k": "jtf", "payload": payload}
+    r = {"k": "jtf", "payload": payload}
+    if rng.random() < 0.25:
+        r["nested_conversion"] = True
+    return r
 
 
 PROP_NAMES = ["id", "value", "onClick", "class_", "data_x", "x_", "x", "aria_label", "title", "items", "cfg", "render", "for_", "x__"]
@@ -182,7 +198,7 @@ def build(r):
     if k == "jnum":
         return r["v"]
     if k == "jtf":
-        return JTF(r["payload"])
+        return NestedConv(r["payload"]) if r.get("nested_conversion") else JTF(r["payload"])
     if k == "list":
         kids = [build(c) for c in r["c"]]
         return kids if r["t"] == "list" else tuple(kids) if r["t"] == "tuple" else ht.TagList(*kids)
@@ -367,6 +383,23 @@ def check_case(ctx, r, n_conv=2):
     return True
 
 
+def check_after_failure(ctx, r, rng):
+    """A conversion that fails (a child that cannot be rendered) must not influence the next conversion."""
+    class Unrenderable:
+        def _repr_html_(self):
+            return "<u>only self-rendering</u>"
+
+    bad = jsx_mod.jsx_tag_create("Broken")(ht.HTMLDependency("stale-dep-a", "1.0"), ht.div(ht.HTMLDependency("stale-dep-b", "1.0")), Unrenderable())
+    ctx.count("oracle.after_failure")
+    try:
+        bad.tagify()
+    except Exception:
+        pass
+    else:
+        return True  # (if the library ever learns to render it there is nothing to test here)
+    return check_case(ctx, r, 2)
+
+
 def check_reconvert(ctx, r, rng):
     """A conversion, then a change to the component (props / children, also of nested tags and components), then
     another conversion: the second result must mirror the changed component (nothing remembered from the first)."""
@@ -392,7 +425,7 @@ def check_reconvert(ctx, r, rng):
     walk(comp, r)
     for _ in range(rng.randint(1, 3)):
         lv, rc = rng.choice(pairs)
-        m = rng.choice(["append_text", "append_dep", "set_prop", "extend"])
+        m = rng.choice(["append_text", "append_dep", "set_prop", "extend", "update_dict"])
         if m == "append_text":
             lv.append("late text")
             rc["c"] = rc["c"] + [{"k": "jtext", "s": "late text"}]
@@ -402,12 +435,33 @@ def check_reconvert(ctx, r, rng):
         elif m == "append_dep":
             lv.append(ht.HTMLDependency("latedep%d" % len(log), "1.0"))
             rc["c"] = rc["c"] + [{"k": "dep", "name": "latedep%d" % len(log), "version": "1.0"}]
+        elif m == "update_dict" and rc["k"] == "jsx":
+            lv.attrs.update({"data_late": "d", "class_": "lc"}, aria_x="ax")
+            # dict semantics: an existing (normalised) name keeps its position and gets the new value, new names are appended
+            props = [[n, v] for n, v in raw_kwargs(rc["props"])]
+            merged = {}
+            for n, v in props:
+                merged[norm(n)] = [n, v]
+            for n, v in (("data_late", {"p": "str", "v": "d"}), ("class_", {"p": "str", "v": "lc"}), ("aria_x", {"p": "str", "v": "ax"})):
+                if norm(n) in merged:
+                    merged[norm(n)][1] = v
+                else:
+                    merged[norm(n)] = [n, v]
+            rc["props"] = list(merged.values())
         elif rc["k"] == "jsx":
             lv.attrs["late_prop"] = 7
-            rc["props"] = [p for p in rc["props"] if norm(p[0]) != "late-prop"] + [["late_prop", {"p": "num", "v": 7}]]
+            hit = [p for p in rc["props"] if norm(p[0]) == "late-prop"]
+            for p_ in hit:
+                p_[1] = {"p": "num", "v": 7}
+            if not hit:
+                rc["props"] = rc["props"] + [["late_prop", {"p": "num", "v": 7}]]
         else:
             lv.attrs["title"] = "late"
-            rc["attrs"] = [a for a in rc["attrs"] if norm(a[0]) != "title"] + [["title", {"t": "str", "s": "late"}]]
+            hit = [a for a in rc["attrs"] if norm(a[0]) == "title"]
+            for a in hit:
+                a[1] = {"t": "str", "s": "late"}  # item assignment replaces in place
+            if not hit:
+                rc["attrs"] = rc["attrs"] + [["title", {"t": "str", "s": "late"}]]
         log.append(m)
     ctx.count("oracle.reconvert")
     wit = {"component_after_mutation": r, "mutations": log}
@@ -528,3 +582,5 @@ def run(ctx):
             ctx.guard(check_allowed_props, ctx, rng, witness={"what": "allowedProps"})
         if rng.random() < 0.2:
             ctx.guard(check_reconvert, ctx, r, rng, witness={"component": r})
+        if rng.random() < 0.1:
+            ctx.guard(check_after_failure, ctx, r, rng, witness={"component": r, "scenario": "after a failed conversion"})
